@@ -158,9 +158,32 @@ type refWalker struct {
 	lastText int // the last eligible word-bearing text node
 }
 
+// harmlessAttr: attributes that leave an element what it is - visible, inline, not marked as anything
+// (the generator's noise: handlers, data-*, title, lang, neutral id/class values, a colour, aria-hidden="false").
+var rxNeutralName = regexp.MustCompile(`^(nx|kx)\d+$`)
+
+func harmlessAttr(a html.Attribute) bool {
+	switch {
+	case a.Key == "title" || a.Key == "lang" || a.Key == "zqunknown" || strings.HasPrefix(a.Key, "data-") || strings.HasPrefix(a.Key, "on"):
+		return true
+	case a.Key == "aria-hidden":
+		return a.Val == "false"
+	case a.Key == "id" || a.Key == "class":
+		return rxNeutralName.MatchString(a.Val)
+	case a.Key == "style":
+		return a.Val == "color:red"
+	}
+	return false
+}
+
 func isSimplePara(p *html.Node) bool {
-	if p.Type != html.ElementNode || p.Data != "p" || len(p.Attr) != 0 {
+	if p.Type != html.ElementNode || p.Data != "p" {
 		return false
+	}
+	for _, a := range p.Attr {
+		if !harmlessAttr(a) {
+			return false
+		}
 	}
 	ok := true
 	hasWord := false
@@ -188,6 +211,9 @@ func isSimplePara(p *html.Node) bool {
 						continue
 					}
 					if c.Data == "font" && (a.Key == "color" || a.Key == "face" || a.Key == "size") {
+						continue
+					}
+					if harmlessAttr(a) {
 						continue
 					}
 					ok = false
